@@ -188,6 +188,7 @@ def check_and_sanitize_items(
     elif tag == "VADDRESSBOOK":
         # https://tools.ietf.org/html/rfc6352#section-5.1
         object_uids = set()
+        seen_object_uids = set()
         for vobject_item in vobject_items:
             if vobject_item.name == "VCARD":
                 object_uid = get_uid(vobject_item)
@@ -212,6 +213,10 @@ def check_and_sanitize_items(
                     vobject_item.uid.value = object_uid
                 else:
                     vobject_item.add("UID").value = object_uid
+            elif object_uid in seen_object_uids:
+                raise ValueError("Multiple %s objects with the same UID: %r" %
+                                 (vobject_item.name, object_uid))
+            seen_object_uids.add(object_uid)
     else:
         for item in vobject_items:
             raise ValueError("Item type %r not supported in %s collection" %
